@@ -322,14 +322,27 @@ func (t *tx) render() string {
 		return "struct{ " + strings.Join(fs, "; ") + " }"
 	case "iface":
 		// t.s: "M" exported method only, "Mn" exported + unexported
-		r := "interface{ M(" + t.subs[0].render() + ") " + t.subs[1].render()
-		if t.s == "Mn" {
-			r += "; n()"
+		// "Me" / "Mne" / "Mnee": the same method sets spelled through embedded interface literals (interface identity is the
+		// method set, whatever the embedding structure)
+		m := "M(" + t.subs[0].render() + ") " + t.subs[1].render()
+		switch t.s {
+		case "M":
+			return "interface{ " + m + " }"
+		case "Me":
+			return "interface{ interface{ " + m + " } }"
+		case "Mn":
+			return "interface{ " + m + "; n() }"
+		case "Mne":
+			return "interface{ interface{ " + m + " }; n() }"
+		case "Mnee":
+			return "interface{ interface{ n() }; interface{ " + m + " } }"
 		}
-		return r + " }"
+		panic("bad iface flavour " + t.s)
 	}
 	panic("bad tx")
 }
+
+var ifaceFlavours = []string{"M", "Mn", "Me", "Mne", "Mnee"}
 
 func leaf(s string) *tx { return &tx{k: "leaf", s: s} }
 
@@ -369,7 +382,7 @@ func genTx(r *rand.Rand, depth int) *tx {
 		emb := []string{"ta.Template", "tb.Template", "Impl", "N", "Rd", "ATa", "gen.L[int]", "gen.L[string]"}
 		return &tx{k: "estruct", subs: []*tx{leaf(emb[r.Intn(len(emb))]), sub()}}
 	default:
-		return &tx{k: "iface", s: []string{"M", "Mn"}[r.Intn(2)], subs: []*tx{sub(), sub()}}
+		return &tx{k: "iface", s: ifaceFlavours[r.Intn(len(ifaceFlavours))], subs: []*tx{sub(), sub()}}
 	}
 }
 
@@ -438,7 +451,7 @@ func mutate(r *rand.Rand, t *tx) *tx {
 			n.s = []string{"", "x", "tag", "tag2"}[r.Intn(4)]
 			return c
 		case "iface":
-			n.s = []string{"M", "Mn"}[r.Intn(2)]
+			n.s = ifaceFlavours[r.Intn(len(ifaceFlavours))]
 			return c
 		}
 	}
@@ -470,6 +483,15 @@ var fixed = []string{
 	"func() (int, string)", "func(int, string)", "func(string, int)", "func(int, string) string", "func(int) (string, string)",
 	"map[string]string", "struct{ a int; B int }", "struct{ a int; B string; c int }", "[2]string", "[]int", "*string", "chan string",
 	"interface{ M(int) }", "interface{ M(string) }", "interface{ M() int }", "interface{ M() string }", "interface{ M(); N() }",
+	// one method set under several spellings (embedding structure, method order, parameter names) and near misses
+	"interface{ Rd; Write(p []byte) (int, error) }", "interface{ Write([]byte) (int, error); Rd }", "interface{ RdW }", "interface{ Rd }",
+	"interface{ interface{ Rd }; interface{ Write(p []byte) (int, error) } }", "interface{ Rd; Write(p []byte) (int, bool) }",
+	"interface{ interface{} }", "interface{ any }", "interface{ interface{ interface{} } }", "interface{ error }", "interface{ Error() string }",
+	"interface{ m(); M() }", "interface{ interface{ M() }; m() }", "interface{ interface{ m() }; interface{ M() } }", "interface{ RecI }",
+	"interface{ interface{ M() } }", "interface{ N(); M() }", "interface{ ta.AnonI }", "interface{ tb.AnonI }", "interface{ ta.Iface }",
+	"interface{ gen.Getter[int] }", "interface{ gen.Getter[string] }", "interface{ ExecA }", "interface{ ExecB }",
+	"func(interface{ Rd }) interface{ any }", "func(interface{ Read(p []byte) (int, error) }) interface{}",
+	"struct{ a, b int }", "struct{ a int; b int }", "func(a, b int)", "func(int, int)", "func(x int) (r string)",
 }
 
 type out struct {
@@ -508,6 +530,7 @@ type out struct {
 	XG1         []string   `json:"xg1"`
 	Unsupported string     `json:"unsupported"`
 	Engine      *engineOut `json:"engine,omitempty"`
+	Matrix      *emOut     `json:"matrix,omitempty"`
 	Error       string     `json:"error,omitempty"`
 }
 
@@ -912,6 +935,7 @@ func main() {
 	o.Unsupported = ser.Unsupported
 	if *tmp != "" {
 		o.Engine = engineSection(*tmp)
+		o.Matrix = emMatrix(*tmp, *seed)
 	}
 	enc.Encode(o)
 }
